@@ -252,11 +252,13 @@ func (p *parser) parseBooking() error {
 				Commodity: targetCommodity,
 			})
 		case "IN":
+			// the account receives the source amount, which the conversion
+			// above turns into the target amount
 			bookings = append(bookings, posting.Builder{
 				Credit:    p.registry.Accounts().TBDAccount(),
 				Debit:     p.account,
-				Quantity:  targetAmount,
-				Commodity: targetCommodity,
+				Quantity:  sourceAmount,
+				Commodity: sourceCommodity,
 			})
 		case "NEUTRAL":
 			return nil
